@@ -16,7 +16,7 @@ func init() {
 		ID: "C09", Gen: genC09, Run: runC09, Quick: 1500, Thorough: 200000,
 		Real: []string{"pkg/exporter (SendSet, sanity check, size check, message builder)", "pkg/entities (set/record builders, value encoder)", "pkg/registry"},
 		Stub: []string{"OS sockets (simnet)", "wall clock (synctest bubble)"},
-		Rule: "valid template/data sends interleaved with: data for an unknown template id, wrong field count, messages sized 65519..65540 bytes, undefined set type, values that cannot be encoded for their element; non-trivial = at least one invalid attempt and one later valid send; distinct = distinct event-log hash",
+		Rule: "valid template/data sends interleaved with: data for an unknown template id, wrong field count, messages sized 65519..65540 bytes, undefined set type, values that cannot be encoded for their element, one too-short record among long ones, failed redefinitions, oversize templates, concurrent data for a template whose announcement fails, sends at the instant of a refresh; non-trivial = at least one invalid attempt and one later valid send; distinct = distinct event-log hash",
 	})
 }
 
